@@ -72,6 +72,7 @@ type c20Run struct {
 	peerCloseIssued bool
 	owedAtPeerClose int // bytes the peer had flushed when it closed
 	closeReturned   bool // some Close() call has returned nil
+	closeReturnedBeforeStep bool // ... before the scheduler step that is running now began
 	free0    int
 
 	fail string
@@ -98,6 +99,11 @@ func (cb *c20CB) OnData(r BufferReader) {
 		c.setFail("ondata-concurrent", fmt.Sprintf("OnData entered while %d other invocation(s) had not returned", c.inOn-1))
 	}
 	c.calls++
+	// S (C20): data stops being offered once the stream is closed. The loop's IsOpen test and this call happen in one
+	// scheduler step, so a Close that had returned nil before this step began was visible to that test.
+	if c.closeReturnedBeforeStep {
+		c.setFail("ondata-after-close", fmt.Sprintf("OnData call %d started although Stream.Close() had already returned nil before the goroutine tested IsOpen()", c.calls))
+	}
 	l := r.Len()
 	data, err := r.Peek(l)
 	if err != nil {
@@ -319,6 +325,7 @@ func (c *c20Run) snap() string {
 func (c *c20Run) stepThread(th *vThread) {
 	prev := th.site
 	st0 := c.st.getStreamState()
+	c.closeReturnedBeforeStep = c.closeReturned
 	c.sched.step(th)
 	// a thread parked at close()'s CAS won it iff this step turned the state into closed
 	won := prev == "wgwait" || (strings.HasPrefix(prev, "close:") && st0 != uint32(streamClosed) && c.st.getStreamState() == uint32(streamClosed))
